@@ -103,10 +103,35 @@ static vj::value big(const vj::value& c, const std::vector<long>& shp) {
     vj::value r = vj::value::object(); r.set("__events", evs); return r;
 }
 
+// index math on sizes beyond 2^31 (up to 2^60): TLC integers are 32-bit, so wide values travel as little-endian base-2^15 digit lists
+static vj::value digits(unsigned long long v) { vj::value a = vj::value::array(); while (v) { a.push((long)(v & 32767)); v >>= 15; } return a; }
+static unsigned long long undigits(const vj::value& a) { unsigned long long v = 0; for (size_t i = a.size(); i-- > 0;) v = (v << 15) | (unsigned long long)a[i].as_int(); return v; }
+template <class T>
+static vj::value wide(const vj::value& c, const std::vector<long>& shp) {
+    std::vector<T> shape; for (auto x : shp) shape.push_back((T)x);
+    auto strides = ix::compute_strides(shape);
+    vj::value evs = vj::value::array();
+    for (size_t q = 0; q < c["kds"].size(); q++) {
+        T k = (T)undigits(c["kds"][q]);
+        auto i1 = ix::compute_indices(k, shape);
+        auto i2 = ix::compute_indices(k, shape, strides);
+        auto off = ix::compute_offset(i1, strides);
+        vj::value st = vj::value::array(); for (size_t i = 0; i < shape.size(); i++) st.push(digits((unsigned long long)nm::at(strides, i)));
+        vj::value s = vj::value::object();
+        s.set("e", "wide").set("id", c["id"].as_int()).set("shape", vj::value(shp)).set("strides", st)
+         .set("k", c["kds"][q]).set("idx", vj::value(shape_vec(i1))).set("idx2", vj::value(shape_vec(i2))).set("off", digits((unsigned long long)off))
+         .set("prod", digits((unsigned long long)ix::product(shape)));
+        evs.push(s);
+    }
+    vj::value r = vj::value::object(); r.set("__events", evs); return r;
+}
+
 static vj::value handle(const vj::value& c) {
     auto shp = c["shape"].as_vec<long>();
     std::string cfg = c["cfg"].as_str();
     size_t d = shp.size();
+    if (cfg == "wide_sz") return wide<size_t>(c, shp);
+    if (cfg == "wide_i64") return wide<int64_t>(c, shp);
     if (cfg == "big_sz") return big<size_t>(c, shp);
     if (cfg == "big_i64") return big<int64_t>(c, shp);
     if (cfg == "big_u32") return big<uint32_t>(c, shp);
